@@ -3,6 +3,7 @@
 From Coq Require Import List NArith Bool Permutation.
 From SV Require Import Fmt.VpkDir Fmt.VpkDirProofs Fmt.VpkName Fmt.VpkNameSplit Fmt.VpkNameProofs SM.Vpk SM.VpkProofs.
 From SV Require Import Fmt.VpkArchName Fmt.VpkArchNameProofs SM.VpkRefine Fmt.VpkDirV2.
+From SV Require Import Fmt.VpkNullStr Fmt.VpkNullStrProofs SM.VpkNested SM.VpkNestedProofs SM.VpkApi SM.VpkApiProofs SM.VpkNestedMap SM.VpkNestedMapProofs SM.VpkNestedSim SM.VpkNestedWf SM.VpkPlace SM.VpkPlaceProofs.
 Import ListNotations.
 Open Scope N_scope.
 
@@ -189,3 +190,256 @@ Proof. exact dirtree_roundtrip_v2. Qed.
 (** The two-version decoder agrees with the version-1 decoder the other theorems are about. *)
 Theorem c13_dec_file_v_extends_v1 : forall c bs es f, dec_file c bs = Some (es, f) -> dec_file_v c bs = Some (1, es, f).
 Proof. exact dec_file_v_v1. Qed.
+
+(** ---- the NUL-terminated strings of the tree (Fmt/VpkNullStr.v; the instance is Gen/VpkNullStr_gen.v g_ncodec) ---- *)
+
+(** The reader shapes accepted by [reader_ok] (one byte at a time, or blocks of a positive size in a loop) take exactly the bytes
+    up to the next NUL off the file, whatever their number, and fail exactly when there is none: they are [read_cstr], the reader
+    the directory codec is defined with, on every input. *)
+Theorem c13_nullstr_reader_shapes : forall r, reader_ok r = true -> forall bs, read_cstr_r r bs = read_cstr bs.
+Proof. exact reader_ok_is_read_cstr. Qed.
+
+(** If the translated description of _write_nullstring / iter_nullstr satisfies [ncodec_ok] (instance obligation), the two
+    functions are the [write_cstr] / [next_str] of Fmt/VpkDir.v that c13_dirtree_roundtrip and the whole-history theorems use. *)
+Theorem c13_nullstr_codec_is_model : forall k, ncodec_ok k = true ->
+  (forall s, write_cstr_k k s = write_cstr s) /\ (forall bs, next_str_k k bs = next_str bs).
+Proof. exact ncodec_ok_is_model. Qed.
+
+(** Every representable tree string (no NUL, bytes < 256, not the single space) of ANY length is read back, followed by anything. *)
+Theorem c13_nullstr_roundtrip : forall k, ncodec_ok k = true -> forall s rest, str_ok s = true ->
+  next_str_k k (write_cstr_k k s ++ rest) = Some (Some s, rest).
+Proof. exact nullstr_roundtrip. Qed.
+
+(** A whole section: the generator yields exactly the strings written, in order, and leaves the file right after the terminator. *)
+Theorem c13_nullstr_section_roundtrip : forall k, ncodec_ok k = true -> forall l rest, forallb str_ok l = true ->
+  iter_nullstr_k k (write_section_k k l ++ rest) = Some (l, rest).
+Proof. exact nullstr_section_roundtrip. Qed.
+
+(** A reader that searches one block of n bytes only cannot read any NUL-free string of n or more bytes: for every block size
+    there are names the writer accepts and the archive cannot be reopened with (seeded fault c13_4 is n = 256). *)
+Theorem c13_nullstr_block_reader_refuted : forall n s rest,
+  forallb (fun b => negb (b =? 0)) s = true -> (N.to_nat n <= length s)%nat ->
+  read_cstr_r (RBlock n) (s ++ 0 :: rest) = None.
+Proof. exact block_reader_refuted. Qed.
+
+Theorem c13_nullstr_block_256_refuted :
+  let s := repeat 97 256 in
+  str_ok s = true /\ next_str (write_cstr s ++ [7]) = Some (Some s, [7])
+  /\ next_str_k (ncodec_block 256) (write_cstr_k (ncodec_block 256) s ++ [7]) = None
+  /\ ncodec_ok (ncodec_block 256) = false
+  /\ next_str_k (ncodec_block 256) (write_cstr_k (ncodec_block 256) (repeat 97 255) ++ [7]) = Some (Some (repeat 97 255), [7]).
+Proof. exact block_256_refuted. Qed.
+
+(** Non-vacuity of [ncodec_ok]; a looping block reader is accepted. *)
+Theorem c13_nullstr_premises_satisfiable : ncodec_ok ncodec_pinned = true
+  /\ reader_ok (RBlockLoop 256) = true
+  /\ iter_nullstr_k ncodec_pinned (write_section_k ncodec_pinned [[116; 120; 116]; []; repeat 101 300] ++ [1; 2])
+     = Some ([[116; 120; 116]; []; repeat 101 300], [1; 2]).
+Proof. exact ncodec_pinned_ok. Qed.
+
+(** ---- the nested dicts _fileinfo[ext][folder][name] and the clean-up of VPK.__delitem__ (SM/VpkNested.v; Gen/VpkNested_gen.v g_del_prog) ---- *)
+
+(** For every clean-up program that only ever pops empty dicts ([prog_safe]: complete enumeration of what its emptiness tests can
+    observe; instance obligation on the program compiled from __delitem__) and every nested tree: the delete raises KeyError exactly
+    when the flat table has no such file, and otherwise the files left are exactly those the flat delete [adel] of SM/Vpk.v leaves
+    (same entries, same order) — no other file of the folder, the extension or the archive disappears. *)
+Theorem c13_nested_delete_is_flat_delete : forall prog, prog_safe prog = true -> forall t k,
+  match ndel prog t k with
+  | Some t' => alookup k (flat_tree t) <> None /\ flat_tree t' = adel k (flat_tree t)
+  | None => alookup k (flat_tree t) = None
+  end.
+Proof. exact ndel_is_adel. Qed.
+
+(** The same on the nested dicts that hold a table of the state machine ([tree_of tb], the tree write_dirfile walks). *)
+Theorem c13_nested_delete_on_table : forall prog, prog_safe prog = true -> forall tb k,
+  match ndel prog (tree_of tb) k with
+  | Some t' => alookup k tb <> None /\ Permutation (flat_tree t') (adel k tb)
+  | None => alookup k tb = None
+  end.
+Proof. exact ndel_tree_of. Qed.
+
+(** The pinned clean-up is accepted and leaves no empty dict behind. *)
+Theorem c13_nested_delete_pinned_ok : prog_safe del_prog_pinned = true /\ prog_tidy del_prog_pinned = true.
+Proof. exact del_prog_pinned_safe. Qed.
+
+(** Testing the files dict a second time instead of the folders dict (seeded fault c13_3) is rejected by [prog_safe], and deleting
+    a/x.t then also removes b/y.t. *)
+Theorem c13_nested_delete_wrong_test_refuted :
+  prog_safe del_prog_c13_3 = false
+  /\ option_map (@flat_tree) (ndel del_prog_c13_3 ex_tree ([116], [97], [120])) = Some []
+  /\ adel ([116], [97], [120]) (flat_tree ex_tree) = [(([116], [98], [121]), ex_info)]
+  /\ option_map (@flat_tree) (ndel del_prog_pinned ex_tree ([116], [97], [120])) = Some [(([116], [98], [121]), ex_info)].
+Proof. exact del_prog_c13_3_refuted. Qed.
+
+(** ---- the API around the state machine: with-blocks, load_dirfile() on the same object (SM/VpkApi.v; Gen/VpkApi_gen.v g_exit_table) ---- *)
+
+(** The whole-history statement over the extended operations.  For every table of what VPK.__exit__ does that is accepted by
+    [exit_table_ok] (complete enumeration of "exception in flight or not" x "mode writable or not": write_dirfile() is called once when
+    there is no exception and the mode is writable, never otherwise, and the exception is not swallowed; instance obligation on the
+    table computed from the source), every sequence of the six operations, leaving a with-block normally or by an exception, and
+    load_dirfile() called again on the same object, refines the specification map exactly as in c13_vpk_refines_map.
+    [xrun] is [None] also when such a load_dirfile() fails half-way (it leaves the object emptied, which the model does not follow). *)
+Theorem c13_api_refines_map : forall et crc cf, exit_table_ok et = true -> vcfg_ok cf = true -> forall xs st codes,
+  collision_free crc (xplain xs) ->
+  xrun et crc cf init xs = Some (st, codes) ->
+  let '(s, scodes) := sxrun cf sinit xs in
+  codes = scodes /\ md st = smd s /\ Permutation (map fst (tbl st)) (map fst (cur s)) /\
+  forall k, match alookup k (tbl st), alookup k (cur s) with
+            | Some i, Some d => read_info st i = d /\ verify_info crc st i = true
+            | None, None => True
+            | _, _ => False
+            end.
+Proof. exact vpk_api_refines_map. Qed.
+
+(** `with VPK(path, mode='w'|'a') as v: ...` left normally, then the archive opened again for reading or appending: it lists exactly
+    the files that should exist, each reading back the bytes last written to it and verifying. *)
+Theorem c13_with_block_saves : forall et crc cf, exit_table_ok et = true -> vcfg_ok cf = true -> forall xs m st codes,
+  m <> MW -> collision_free crc (xplain xs) ->
+  xrun et crc cf init (xs ++ [XExit true; XOp (OReopen m)]) = Some (st, codes) ->
+  let '(s0, c0) := sxrun cf sinit xs in
+  writable (smd s0) = true ->
+  codes = c0 ++ [rOk; rOk] /\ md st = m /\ Permutation (map fst (tbl st)) (map fst (cur s0)) /\
+  forall k, match alookup k (tbl st), alookup k (cur s0) with
+            | Some i, Some d => read_info st i = d /\ verify_info crc st i = true
+            | None, None => True
+            | _, _ => False
+            end.
+Proof. exact vpk_with_block_saves. Qed.
+
+(** A block left by an exception writes nothing. *)
+Theorem c13_with_block_exception_writes_nothing : forall et crc cf st, exit_table_ok et = true ->
+  xstep et crc cf st (XExit false) = Some (st, rOk).
+Proof. exact vpk_with_block_exception. Qed.
+
+(** The pinned __exit__ is accepted; saving also while an exception is in flight, or never saving, is not. *)
+Theorem c13_exit_tables_computed :
+  exit_table_ok exit_table_pinned = true /\ exit_table_ok exit_table_always = false /\ exit_table_ok exit_table_never = false
+  /\ mode_table_ok false true true = true.
+Proof. exact exit_tables_computed. Qed.
+
+(** ---- the nested dicts are a finite map (SM/VpkNestedMap.v; Gen/VpkNested_gen.v g_ins_ext / g_ins_dir / g_del_prog) ---- *)
+
+(** The three laws of a finite map for lookup as __getitem__ / __contains__ do it (first entry with the key at each of the three
+    levels), insertion as new_file does it and deletion as __delitem__ does it — for every tree (no well-formedness assumption), every
+    description of the two get-or-create steps of new_file accepted by [goc_ok] (the dict found is reused, a missing one is created and
+    stored) and every clean-up program accepted by [prog_safe]; both are instance obligations on what the translator reads from the
+    source. *)
+Theorem c13_nested_map_empty : forall k, nlookup [] k = None.
+Proof. exact nlookup_nil. Qed.
+
+Theorem c13_nested_map_lookup_after_new_file : forall g1 g2, goc_ok g1 = true -> goc_ok g2 = true -> forall t k i,
+  exists t', nins g1 g2 t k i = Some t' /\ forall k', nlookup t' k' = if key_eqb k' k then Some i else nlookup t k'.
+Proof. exact nlookup_nins. Qed.
+
+Theorem c13_nested_map_lookup_after_delete : forall prog, prog_safe prog = true -> forall t k,
+  match ndel prog t k with
+  | Some t' => forall k', nlookup t' k' = if key_eqb k' k then None else nlookup t k'
+  | None => nlookup t k = None
+  end.
+Proof. exact nlookup_ndel. Qed.
+
+(** A fresh extension dict on every new_file loses the other files of the extension; a new folder dict that is not stored loses the
+    file just added; both descriptions are rejected by [goc_ok]. *)
+Theorem c13_nested_insert_refuted :
+  goc_ok goc_pinned = true /\ goc_ok goc_always_new = false /\ goc_ok goc_forgets_store = false
+  /\ option_map (fun t => nlookup t ([116], [97], [120])) (nins goc_always_new goc_pinned ex_t2 ([116], [99], [122]) ex_info) = Some None
+  /\ option_map (fun t => nlookup t ([116], [97], [120])) (nins goc_pinned goc_pinned ex_t2 ([116], [99], [122]) ex_info) = Some (Some ex_info)
+  /\ option_map (fun t => nlookup t ([116], [99], [122])) (nins goc_pinned goc_forgets_store ex_t2 ([116], [99], [122]) ex_info) = Some None.
+Proof. exact goc_refuted. Qed.
+
+(** ---- the nested dicts simulate the table of the state machine (SM/VpkNestedSim.v) ---- *)
+
+(** [nrel t tb]: looking a name up in the nested dicts gives what the table of SM/Vpk.v holds for it.  It holds for the empty archive
+    and is preserved by new_file / an in-place update of an entry ([aset] on the table) and by __delitem__ ([adel]), for the
+    translated descriptions of both; a KeyError from the nested delete implies that the table has no such file. *)
+Theorem c13_nested_simulates_table_empty : nrel [] [].
+Proof. exact nrel_nil. Qed.
+
+Theorem c13_nested_simulates_table_new_file : forall g1 g2, goc_ok g1 = true -> goc_ok g2 = true -> forall t tb k i, nrel t tb ->
+  exists t', nins g1 g2 t k i = Some t' /\ nrel t' (aset k i tb).
+Proof. exact nrel_nins. Qed.
+
+Theorem c13_nested_simulates_table_delete : forall prog, prog_safe prog = true -> forall t tb k, nrel t tb ->
+  match ndel prog t k with
+  | Some t' => nrel t' (adel k tb)
+  | None => alookup k tb = None
+  end.
+Proof. exact nrel_ndel. Qed.
+
+(** ---- Python dicts have no two entries with one key: what __iter__ walks is the table (SM/VpkNestedWf.v) ---- *)
+
+(** [tree_wf] (distinct keys at each of the three levels) holds for the empty archive and is kept by new_file and __delitem__. *)
+Theorem c13_nested_wf_invariant :
+  tree_wf []
+  /\ (forall g1 g2, goc_ok g1 = true -> goc_ok g2 = true -> forall t k i t', tree_wf t -> nins g1 g2 t k i = Some t' -> tree_wf t')
+  /\ (forall prog t k t', tree_wf t -> ndel prog t k = Some t' -> tree_wf t').
+Proof. split; [exact tree_wf_nil|]. split; [exact tree_wf_nins|exact tree_wf_ndel]. Qed.
+
+(** For such nested dicts related to a table of the state machine: the files __iter__ / __len__ / filenames() walk ([flat_tree], the
+    three-level walk the listing obligations establish) are exactly the table's names, none twice, each with the table's entry ... *)
+Theorem c13_nested_walk_is_table : forall t tb, tree_wf t -> nrel t tb -> NoDup (map fst tb) ->
+  Permutation (map fst (flat_tree t)) (map fst tb) /\ forall k, alookup k (flat_tree t) = alookup k tb.
+Proof. exact wf_walk_is_table. Qed.
+
+(** ... and __delitem__ raises KeyError exactly when the table has no such file. *)
+Theorem c13_nested_delete_raises_iff_missing : forall prog, prog_safe prog = true -> forall t tb k, tree_wf t -> nrel t tb ->
+  (ndel prog t k = None <-> alookup k tb = None).
+Proof. exact wf_ndel_exact. Qed.
+
+(** Every sequence of new_file / in-place updates of an entry / deletes from the empty archive: no insertion raises, and what __iter__
+    walks afterwards is exactly the table SM/Vpk.v holds after the same [aset]/[adel] operations. *)
+Theorem c13_nested_history_lists_table : forall g1 g2 prog, goc_ok g1 = true -> goc_ok g2 = true -> prog_safe prog = true -> forall ops,
+  exists t, nt_run g1 g2 prog [] ops = Some t
+  /\ Permutation (map fst (flat_tree t)) (map fst (tb_run [] ops))
+  /\ forall k, alookup k (flat_tree t) = alookup k (tb_run [] ops).
+Proof. exact nested_history_lists_table. Qed.
+
+(** ---- where FileInfo.write puts the data, as a decision table (SM/VpkPlace.v; Gen/VpkPlace_gen.v g_place_table) ---- *)
+
+(** [want_cut] / [want_dest], against which the table obtained by executing FileInfo.write on symbolic values is compared
+    ([place_table_ok], instance obligation), are exactly what [write_info] of the state machine does: for every configuration, state,
+    entry, data and index with a changed checksum, the preload is the data up to the cut (the limit if the VPK is a directory with a
+    limit <= MAX_PRELOAD, MAX_PRELOAD otherwise), the stored length is that of the rest, and the rest goes nowhere (empty), to the end
+    of footer_data with the old length as offset (singular, no limit, or no index), or to the end of archive [x] with its old length
+    as offset. *)
+Theorem c13_write_placement_is_table : forall crc cf st i d ix, (crc d =? icrc i) = false ->
+  let cut := cut_val cf (want_cut (v_is_dir cf) (class_of cf)) in
+  let tail := skipn (N.to_nat cut) d in
+  let dest := want_dest (v_is_dir cf) (class_of cf) (is_none ix) (is_nil' tail) in
+  let '(st', i') := write_info crc cf st i d ix in
+  icrc i' = crc d /\ ipre i' = firstn (N.to_nat cut) d /\ ilen i' = len tail /\
+  match dest with
+  | DNone => st' = st /\ iidx i' = None /\ ioff i' = 0
+  | DFooter => foot st' = foot st ++ tail /\ archs st' = archs st /\ tbl st' = tbl st /\ iidx i' = None /\ ioff i' = len (foot st)
+  | DArch => exists x, ix = Some x /\ archs st' = arch_app x tail (archs st) /\ foot st' = foot st /\ tbl st' = tbl st
+                       /\ iidx i' = Some x /\ ioff i' = len (arch_get x (archs st))
+  | DOther => False
+  end.
+Proof. exact write_info_want. Qed.
+
+(** The table of the pinned code is accepted; a table without the cap at MAX_PRELOAD (defect 20 of round 1) and one that drops the rest
+    of a file written with arch_index None (defect 19) are rejected, as is an incomplete table. *)
+Theorem c13_place_tables_computed :
+  place_table_ok table_pinned = true /\ length table_pinned = 24%nat
+  /\ place_cut_ok table_no_cap = false /\ place_dest_ok table_tail_dropped = false /\ place_table_ok [] = false.
+Proof. exact place_tables_computed. Qed.
+
+(** [want_src], against which the table obtained by executing FileInfo.read and FileInfo.verify on symbolic values is compared
+    ([read_table_ok], instance obligation: nothing after start_data when arch_len is 0, the slice of footer_data at the stored offset
+    when the index is None, otherwise the stored number of bytes at the stored offset of the archive with the stored index; verify()
+    takes the checksum of the same bytes), is [read_info] / [verify_info] of the state machine. *)
+Theorem c13_read_source_is_table : forall crc st i,
+  read_info st i = ipre i ++ match want_src (ilen i =? 0) (is_none (iidx i)) with
+                            | RNone => []
+                            | RFooter => slice (foot st) (ioff i) (ilen i)
+                            | RArch => match iidx i with Some x => slice (arch_get x (archs st)) (ioff i) (ilen i) | None => [] end
+                            | ROther => []
+                            end
+  /\ verify_info crc st i = (crc (read_info st i) =? icrc i).
+Proof. exact read_info_want. Qed.
+
+Theorem c13_read_tables_computed :
+  read_table_ok rtable_pinned = true
+  /\ read_table_ok [mkRRow false false RArch ROther; mkRRow false true RFooter RFooter; mkRRow true false RNone RNone; mkRRow true true RNone RNone] = false
+  /\ read_table_ok [mkRRow false false RArch RArch] = false.
+Proof. exact read_tables_computed. Qed.
